@@ -26,7 +26,7 @@ PROPERTY_ID = "C14"
 LEVEL = "model_checking"
 RULE = "caller/callee chain of obligations over the real rate-control functions with symbolic sizes, bit counts and coefficients; see module docstring"
 BOUNDS = {
-    "quick": "select: <= 3 coefficient sets, <= 8 index iterations, align_bits in {1, 8, 16}, minimum index 0..3; hq: picture_bytes any integer giving a slice size scaler <= 6, slices up to 4x3, minimum scaler 1..3; ld: picture_bytes 0..4096, slices up to 3x2; glue: 2 slices x 2 symbolic 4-bit coefficients",
+    "quick": "select: <= 3 coefficient sets, <= 8 index iterations, align_bits in {1, 8, 16, 24, 40}, minimum index 0..3; hq: picture_bytes any integer giving a slice size scaler <= 6, slices up to 4x3, minimum scaler 1..3; ld: picture_bytes 0..4096, slices up to 3x2; glue: 2 slices x 2 symbolic 4-bit coefficients",
     "thorough": "select: <= 16 iterations; hq: slices up to 8x4; glue: 3 coefficients of 5 bits",
 }
 OUTSIDE = "more/larger coefficients in the glue runs; the caller/callee composition is informal"
@@ -42,7 +42,7 @@ def tasks(tier, seed):
     q = tier == "quick"
     out = []
     for nsets in (1, 2, 3):
-        for align in (1, 8, 16):
+        for align in (1, 8, 16, 24, 40):
             out.append({"id": "select sets=%d align=%d" % (nsets, align), "harness": "select", "args": (nsets, align, 8 if q else 16)})
     out.append({"id": "ceil", "harness": "ceil", "args": ()})
     out.append({"id": "wiring", "harness": "wiring", "args": (8 if q else 12,)})
